@@ -126,8 +126,20 @@ package gcsemu
 //@   ensures result2 == nil ==> result0.Size == wrapu64(len(result1))   // == len(result1): a Go length is < 2^63, but govc's model has no upper bound on len()
 //@   ensures result2 != nil ==> result0 == nil && isnil(result1)
 
+// C02 "a successful upload stores exactly the bytes that were sent": the contents handed to finishUpload are exactly
+// what the single read of the request body returned - io.ReadAll on r.Body (media) or readMultipartInsert (multipart);
+// ghost code after those two calls records the bytes and counts the reads.
+//@ ghostvar upBody string protocol
+//@ ghostvar upReads int protocol
 //@ func (g *GcsEmu) handleGcsNewObject
 //@   property C02 C04 C20
+//@   modifies ghost(upBody), ghost(upReads)
+//@   callsite ReadAll requires arg0 == r.Body
+//@   callsite ReadAll ghost upBody == result0
+//@   callsite ReadAll ghost upReads == upReads + 1
+//@   callsite readMultipartInsert ghost upBody == result1
+//@   callsite readMultipartInsert ghost upReads == upReads + 1
+//@   callsite (*GcsEmu).finishUpload requires upReads == old(upReads) + 1 && arg4 == upBody
 //@   requires w != nil && r != nil && r.Body != nil
 //@   requires !isnil(ctx)
 //@   modifies *, ghost(jsonBodies), ghost(epoch), ghost(gcsValidEpoch), ghost(gcsReadEpoch), ghost(gcsReadObj), ghost(gcsReadMetagen), ghost(lmTick), ghost(lmLastOp), ghost(lmLastId)
